@@ -25,7 +25,8 @@ ASSUMPTIONS = ["hop-by-hop ids are unique per connection, not across connections
 TIMEOUT = {"quick": 900, "thorough": 3600}
 SCTP_CLONES = {"quick": ['rand3', 'enum0'], "thorough": ['rand10', 'rand11', 'enum0', 'concurrent3']}
 FAULTS = ["none", "close", "reset", "dpr", "reconnect", "second_conn", "second_conn_before", "second_conn_then_close",
-          "second_conn_then_dpr"]
+          "second_conn_then_dpr",
+          "dpr_then_late_dwa"]
 
 
 def shards(tier, seed):
@@ -54,7 +55,8 @@ class Case:
         peers = [{"name": f"peer{i + 1}.verif.example"} for i in range(npeers)]
         self.w = World(dict(peers=peers, apps=[{"tag": "a4", "id": 4, "behaviour": "defer",
                                                  "peers": [p["name"] for p in peers]}],
-                            node={"idle_timeout": 10 ** 6}))
+                            node={"idle_timeout": 500 if fault == "dpr_then_late_dwa" else 10 ** 6,
+                                  "dwa_timeout": 10 ** 6}))
         self.h = self.w.h
         self.app = self.w.apps["a4"]
         self.socks = []      # per peer: list of ScriptedPeer (connection generations)
@@ -75,6 +77,8 @@ class Case:
     def sock_ready(self, p):
         if p.closed or p.node_sock.closed:
             return False
+        if getattr(p, "dpr_exchanged", False):
+            return False        # ground truth from the history: the DPR exchange has taken place on it
         conn = self.h.conn_of(p)
         from diameter.node.peer import PEER_READY_STATES
         return conn is not None and conn.state in PEER_READY_STATES
@@ -92,17 +96,32 @@ class Case:
             p.reset_conn()
         elif f == "dpr":
             p.send(M.dpr(name, self.REALM, hbh=900, e2e=900))
+            p.dpr_exchanged = True
         elif f == "reconnect":
             p.close()
             h.settle()
             self.socks[t].append(self.connect(t, gen=len(self.socks[t])))
         elif f == "second_conn":
             self.socks[t].append(self.connect(t, gen=len(self.socks[t])))
+        elif f == "dpr_then_late_dwa":
+            # the node's watchdog request is under way when the peer disconnects; its answer arrives afterwards.
+            # The connection has left the ready state for good: the late DWA changes nothing
+            h.advance(501)
+            h.settle()
+            p.drain()
+            d = [x for x in p.frames if x.h.code == 280 and x.is_request]
+            p.send(M.dpr(name, self.REALM, hbh=900, e2e=900))
+            p.dpr_exchanged = True
+            h.settle()
+            if d:
+                p.send(M.dwa(name, self.REALM, hbh=d[-1].h.hbh, e2e=d[-1].h.e2e))
+                self.run.cov["late_dwa_after_dpr"] = self.run.cov.get("late_dwa_after_dpr", 0) + 1
         elif f == "second_conn_then_dpr":
             # as above, but the connection that carried the requests leaves the ready state through a DPR and stays open
             self.socks[t].append(self.connect(t, gen=len(self.socks[t])))
             h.settle()
             p.send(M.dpr(name, self.REALM, hbh=900, e2e=900))
+            p.dpr_exchanged = True
         elif f == "second_conn_then_close":
             # the peer stays connected through a second connection while the one that carried the requests goes
             self.socks[t].append(self.connect(t, gen=len(self.socks[t])))
